@@ -73,7 +73,8 @@ def c09(ctx: Ctx):
     seen = set()
     if ctx.replay:
         v = ctx.replay["violation"]
-        write_ndjson(cases, [dict(doc=v["doc"], reqs=[v["req"]] if "req" in v else [])])
+        # a held-route violation carries the whole request sequence of its case (the history matters)
+        write_ndjson(cases, [dict(doc=v["doc"], reqs=v["reqs"] if "reqs" in v else ([v["req"]] if "req" in v else []))])
     else:
         # D (drift guard): the models of the pinned code must still deviate from the contract
         ctx.tlc("MC_C09", "MC_C09_pinned.cfg", expect_violation=True, label="D pinned models deviate (expected)")
@@ -133,13 +134,17 @@ def c09(ctx: Ctx):
     ctx.rule = ("documents = template families over segments {a, b, {var}} -- plus a 'mixed' universe of 11 templates with variables "
                 "inside a segment and their literal / plain-variable competitors (/v{n}, /v1, /{x}, /files/report.{ext}, "
                 "/files/report.pdf, /files/{x}, /{p}-{q}, /a-b, /v{n}/a, /v1/{x}, /a/v{n}) -- with a method set per template (GET, POST or both), crossed "
-                "with 9 server shapes (none; relative; relative with trailing slash; '/'; absolute; absolute with host and port "
-                "variables; two absolute servers; path-level servers on the first / the last template), enumerated by TLC "
+                "with 11 server shapes (none; relative; relative with trailing slash; '/'; absolute; absolute with host and port "
+                "variables; two absolute servers; path-level servers on the first / the last template; two servers whose base "
+                "paths are /v1 and /v10, relative and absolute), enumerated by TLC "
                 "(spec/Gen_C09.tla, bounds in spec/MC_C09_*.cfg: BFS for the core, BFS with seeded 1/Slice emission and "
                 "-simulate beyond it); requests are derived from each document in TLA+ (spec/RouterUniverse.tla Requests: "
                 "every fill of every template with values {a, b, v} under every declared server x GET/POST, near misses "
                 "(segment more/less, trailing slash(es), empty segment, literal-prefix segment), undeclared/unknown/lower-case "
-                "methods, URLs that miss or vary the server: scheme, host label, tld, host length, base, port, relative form); "
+                "methods, URLs that miss or vary the server: scheme, host label, tld, host length, base, base continued inside "
+                "its last segment (/v1 -> /v10, /v1beta, /v1x, base glued to the first path segment), port, relative form); the "
+                "requests of a document run in chunks of 16 on one instance of each router, main URLs as GET-then-POST pairs, and "
+                "every route object returned in a chunk is read again after the chunk's last request (held observation); "
                 "evaluations = (document, request, router) FindRoute calls judged by TLC; non-trivial = distinct (document, "
                 "request) where at least one router got as far as a template (route, method-not-allowed or panic)")
     ctx.validate("Trace_C09", "Trace_C09.cfg", logp, chunk_lines=max(40, min(700, nlines // 16 + 1)))
